@@ -172,9 +172,13 @@ fn check_expr(rep: &mut Report, name: &str, e: &Expr, facts: &Value, operands: &
             if !same_res(&obs, &expected) {
                 let mut tags = vec!["C02"];
                 let any_none = operands.iter().any(|v| **v == Value::None);
-                if any_none { tags.push("C04"); }
-                let tags_differ = operands.len() == 2 && tag_of(operands[0]) != tag_of(operands[1]);
-                if (tags_differ && !any_none) || expected == Err(RErr::InvalidType) || obs == Err(RErr::InvalidType) { tags.push("C03"); }
+                // C03 / C04 are only attributed when the ACTUAL operand values of the failing node are known (depth-1 cases)
+                if !operands.is_empty() {
+                    let lazy = matches!(name, "and" | "or" | "iif" | "eq" | "neq");
+                    let none_rule_applies = if lazy { *operands[0] == Value::None || (matches!(name, "eq" | "neq") && any_none) } else { any_none };
+                    if none_rule_applies { tags.push("C04"); }
+                    if !any_none && (expected == Err(RErr::InvalidType) || obs == Err(RErr::InvalidType)) { tags.push("C03"); }
+                }
                 if matches!(expected, Err(RErr::OutOfBounds) | Err(RErr::InvalidCast) | Err(RErr::DivisionByZero)) && obs.is_ok() { tags.push("C01"); }
                 if name == "index" || name == "ref" { tags = vec!["C10"]; if any_none { tags.push("C04"); } }
                 rep.fail(&tags, &format!("{name}.table"), &format!("{e}   [facts = {facts}]"), &format!("{obs:?}"), &format!("{expected:?}"));
@@ -400,6 +404,7 @@ fn check_scenario(rep: &mut Report, what: &str, tags: &[&str], rules: Vec<(Strin
                         for (idx, (a, b)) in os.iter().zip(&exp_out).enumerate() {
                             if !same_res(&a.1, &b.1) {
                                 let mut t = attribute(&rules, idx, &["C02"]);
+                                if run.log == exp_log { t.retain(|x| *x != "C05"); if t.is_empty() { t.push("C02"); } }
                                 if k > 0 && !t.contains(&"C11") { t.push("C11"); } // differs only in a later evaluation: something was remembered
                                 if tags.contains(&"C05") && !t.contains(&"C02") { t.push("C02"); }
                                 rep.fail(&t, "outcome", &desc, &format!("evaluation #{k}: rule {} = {:?}", a.0, a.1), &format!("{:?}", b.1));
